@@ -69,6 +69,10 @@ def run(ctx, res):
     vlib.build_harness()
     mc = vlib.tlc("ImportsAlgo", "MC_ImportsAlgo_fixed.cfg", workdir=ctx.work, workers=8, timeout=900)
     res.add_tlc(mc)
+    # liveness: the resolution algorithm ends on every import graph (cycles, self-imports, diamonds) under weak fairness
+    live = vlib.tlc("ImportsAlgo", "MC_ImportsAlgo_live.cfg", workdir=ctx.work, workers=8, timeout=900)
+    res.add_tlc(live)
+    res.extra["liveness_importsalgo_terminates_states"] = live.distinct
     g = vlib.tlc("Gen_C13", "Gen_C13_quick.cfg" if ctx.quick else "Gen_C13_thorough.cfg", workdir=ctx.work, workers=8,
                  timeout=1500, xmx="6g")
     res.add_tlc(g)
